@@ -208,6 +208,10 @@ package scanner
 //@ ensures [no-tree-head-no-fetch] pr.res1 != nil ==> result == pr.res1 && !gr.called
 //@ ensures [otherwise-ranges-are-generated-and-the-run-reports-no-error] pr.res1 == nil ==> gr.called && result == nil
 //@ at gr assert [ranges-are-generated-under-a-context-of-their-own] gr.f == f
+//@ site context.WithCancel#1 as wc
+//@ site Run$1#1 as w
+//@ at gr assert [stop-cancels-the-range-generator] gr.ctx == wc.res0
+//@ at w assert [the-workers-keep-running-under-the-callers-context] w.ctx == old(ctx)
 
 //@ func (*Fetcher).genRanges
 //@ props C16 C20
